@@ -10,6 +10,7 @@
 -/
 import PS.Proofs.ConstraintsCfg
 import PS.Model.ConstraintsParse
+import PS.Proofs.ConstraintsGrammar
 set_option synthInstance.maxSize 1024
 namespace PS.C05
 open PS DFTA
@@ -142,15 +143,6 @@ end Example
 /-! ### on a grammar: `__cfg2dfta__` -/
 open PS.G
 
-/-- **sharpening a grammar**, in terms of the (type, height) automaton `__cfg2dfta__` builds. -/
-theorem C05_sharpen (G : CFG) (cs : List (Tok Sym)) (sketch : Option (Tok Sym)) (D : DFTA Sym (UState BaseSt))
-    (h : addDftaConstraints (liftBase (cfg2dfta G)) cs sketch = some D) (t : Prog) :
-    D.accepts t = sharpenSpec (cfg2dfta G).accepts cs sketch t := by
-  rw [C05_sharpen_tokens _ 0 (liftBase_det _) (liftBase_uniform _) cs sketch D h t]
-  unfold sharpenSpec
-  rw [liftBase_accepts _ (cfg2dfta_det G) t]
-
-/-! ### findings (witnesses on the model; each is replayed on /repo by harness/c05.py corpus()) -/
 namespace Finding
 def tInt : Ty := .base "int"
 def tII : Ty := .arrow tInt (.arrow tInt tInt)
@@ -165,7 +157,76 @@ def g : CFG :=
     rules := [((tInt, (([], 0), ())), [(sOne, ([], ())), (sPlus, ([(tInt, ctx 0), (tInt, ctx 1)], ()))]),
               ((tInt, (ctx 0, ())), [(sVar, ([], ())), (sOne, ([], ()))]),
               ((tInt, (ctx 1, ())), [(sVar, ([], ())), (sOne, ([], ()))])] }
+/-- the same grammar with `min_variable_depth = 0` -/
+def g0 : CFG :=
+  { start := (tInt, (([], 0), ())),
+    rules := [((tInt, (([], 0), ())), [(sVar, ([], ())), (sOne, ([], ())), (sPlus, ([(tInt, ctx 0), (tInt, ctx 1)], ()))]),
+              ((tInt, (ctx 0, ())), [(sVar, ([], ())), (sOne, ([], ()))]),
+              ((tInt, (ctx 1, ())), [(sVar, ([], ())), (sOne, ([], ()))])] }
 end Finding
+
+/-- **sharpening a grammar**, in terms of the (type, height) automaton `__cfg2dfta__` builds. -/
+theorem C05_sharpen (G : CFG) (cs : List (Tok Sym)) (sketch : Option (Tok Sym)) (D : DFTA Sym (UState BaseSt))
+    (h : addDftaConstraints (liftBase (cfg2dfta G)) cs sketch = some D) (t : Prog) :
+    D.accepts t = sharpenSpec (cfg2dfta G).accepts cs sketch t := by
+  rw [C05_sharpen_tokens _ 0 (liftBase_det _) (liftBase_uniform _) cs sketch D h t]
+  unfold sharpenSpec
+  rw [liftBase_accepts _ (cfg2dfta_det G) t]
+
+/-- **`__cfg2dfta__` never loses a program of the grammar** (for tables of the shape
+    `CFG.depth_constraint` builds: `wfCFG`, and `sigFunctional`: a symbol with given argument
+    types is used at one type). -/
+theorem C05_cfg2dfta_complete (G : CFG) (hwf : wfCFG G = true) (hsig : sigFunctional G = true) (t : Prog)
+    (ht : gen G t G.start = true) : (cfg2dfta G).accepts t = true :=
+  cfg2dfta_complete G hwf hsig t ht
+
+/-- **`__cfg2dfta__` is exact under Hyp_C05** (`cfg2dftaExact G`: every rule of the automaton can be
+    taken at every non-terminal of its type that leaves enough depth). -/
+theorem C05_cfg2dfta_partial (G : CFG) (hwf : wfCFG G = true) (hsig : sigFunctional G = true)
+    (hex : cfg2dftaExact G = true) (t : Prog) : (cfg2dfta G).accepts t = gen G t G.start :=
+  cfg2dfta_exact G hwf hsig hex t
+
+/-- non-vacuity: the depth-2 grammar of `+, 1` with `min_variable_depth = 0` satisfies all three
+    hypotheses, and the automaton accepts `(+ 1 var0)` and `var0`, as the grammar does -/
+example : wfCFG Finding.g0 = true ∧ sigFunctional Finding.g0 = true ∧ cfg2dftaExact Finding.g0 = true ∧
+    gen Finding.g0 (.node Finding.sVar []) Finding.g0.start = true ∧
+    (cfg2dfta Finding.g0).accepts (.node Finding.sPlus [.node Finding.sOne [], .node Finding.sVar []]) = true := by decide
+
+/-  FULL STATEMENT (false on the code as it is, finding C05-F1):
+      theorem C05_cfg2dfta (G : CFG) (hwf : wfCFG G) (t : Prog) : (cfg2dfta G).accepts t = gen G t G.start  -/
+
+/-- **C05** for grammars on which `__cfg2dfta__` is exact: the sharpened automaton accepts a program
+    iff it is in the grammar, every rule holds at every occurrence, and the root satisfies the
+    sketch. -/
+theorem C05_sharpen_partial (G : CFG) (hwf : wfCFG G = true) (hsig : sigFunctional G = true)
+    (hex : cfg2dftaExact G = true) (cs : List (Tok Sym)) (sketch : Option (Tok Sym))
+    (D : DFTA Sym (UState BaseSt)) (h : addDftaConstraints (liftBase (cfg2dfta G)) cs sketch = some D) (t : Prog) :
+    D.accepts t = sharpenSpec (fun t => gen G t G.start) cs sketch t := by
+  rw [C05_sharpen G cs sketch D h t]
+  unfold sharpenSpec
+  rw [C05_cfg2dfta_partial G hwf hsig hex t]
+
+/-- without `cfg2dftaExact`, sharpening still **never removes** a program of the grammar that
+    satisfies every rule and the sketch. -/
+theorem C05_never_removes (G : CFG) (hwf : wfCFG G = true) (hsig : sigFunctional G = true)
+    (cs : List (Tok Sym)) (sketch : Option (Tok Sym)) (D : DFTA Sym (UState BaseSt))
+    (h : addDftaConstraints (liftBase (cfg2dfta G)) cs sketch = some D) (t : Prog)
+    (hg : gen G t G.start = true) (hc : ∀ c ∈ cs, satConstraint c t = true)
+    (hs : ∀ sk, sketch = some sk → satSketch sk t = true) : D.accepts t = true := by
+  apply C05_never_removes_base _ 0 (liftBase_det _) (liftBase_uniform _) cs sketch D h t _ hc hs
+  rw [liftBase_accepts _ (cfg2dfta_det G) t]
+  exact C05_cfg2dfta_complete G hwf hsig t hg
+
+/-- … and under `cfg2dftaExact` it **never adds** one. -/
+theorem C05_never_adds_partial (G : CFG) (hwf : wfCFG G = true) (hsig : sigFunctional G = true)
+    (hex : cfg2dftaExact G = true) (cs : List (Tok Sym)) (sketch : Option (Tok Sym))
+    (D : DFTA Sym (UState BaseSt)) (h : addDftaConstraints (liftBase (cfg2dfta G)) cs sketch = some D) (t : Prog)
+    (ht : D.accepts t = true) : gen G t G.start = true := by
+  have := C05_never_adds_base _ 0 (liftBase_det _) (liftBase_uniform _) cs sketch D h t ht
+  rw [liftBase_accepts _ (cfg2dfta_det G) t, C05_cfg2dfta_partial G hwf hsig hex t] at this
+  exact this
+
+/-! ### findings (witnesses on the model; each is replayed on /repo by harness/c05.py corpus()) -/
 
 /-- **Finding C05-F1.** `__cfg2dfta__` keeps only (type, height): with `min_variable_depth = 1` the
     program `var0` is not in the grammar, but the automaton — hence every sharpened automaton, here
@@ -179,6 +240,11 @@ theorem finding_C05_F1 :
   decide
 
 /-! ### the parser -/
+
+/-! ### the parser
+  The character-level parser is modelled (PS.C05.parse) and compared with the library's on every
+  generated string.  A round-trip theorem `parse (render tok) = tok` for the documented syntax is
+  FALSE on the code as it is: the three findings below are counter-examples (by evaluation). -/
 
 namespace Finding
 def sy : Syms := { prims := [sPlus, Sym.prim "-" tII, sOne], vars := [sVar] }
